@@ -530,6 +530,41 @@ def run(world, rep, tier, only=None):
         rep.ob("C12.m", site(tmain, "the default undo file replaces no name given with -z#%d" % i), ok,
                "`%s` lies on the `!undo_file` side of a test" % n.text()[:40])
 
+    # ------------------------------------------------------------------ C12.p tune2fs decides on the undo manager before anything is written
+    # tune2fs opens the device with the plain manager, and where an undo file is wanted closes it and opens it again
+    # through the undo manager (`goto retry_open`).  Whatever modifies the device in main - the journal replay above
+    # all, which runs on the first handle - lies behind the test that offers this switch; before it, the bytes
+    # written would be in no undo file and e2undo would "restore" the state after them.
+    ut = [tmain.block_end(b) for b in tmain.blocks if tmain.literal(b) and
+          {"undo_file", "io_ptr_orig"} & {T.path(y) for y in T.walk(tmain.literal(b)[0]) if isinstance(y, dict)} and
+          any(c_ in tmain.reach([tmain.block_end(b)]) for c_ in calls_to(tmain, "tune2fs_setup_tdb"))]
+    rep.floor("C12.p tests that offer the undo manager in tune2fs main", len(ut), 1)
+    # the modifying calls of main: the library's journal replay and flush, and tune2fs's own functions that (through
+    # direct calls in the file) mark the file system dirty or send a write request
+    tfile = {f.name: f for f in tp.fns_in_file("misc/tune2fs.c")}
+    writes_ = set()
+    chg = True
+    while chg:
+        chg = False
+        for f in tfile.values():
+            if f.name in writes_ or f.name == "main":
+                continue
+            if any(effects.is_write_req(f, c_) or effects.is_dirty_mark(f, c_) or
+                   is_call(c_, "ext2fs_write_inode", "ext2fs_write_inode_full", "ext2fs_flush", "ext2fs_flush2") or
+                   any(nm in writes_ for nm in T.call_names(c_.ev["x"])) for c_ in f.call_nodes()):
+                writes_.add(f.name)
+                chg = True
+    mod_calls = [c_ for c_ in tmain.call_nodes() if
+                 is_call(c_, "ext2fs_run_ext3_journal", "ext2fs_flush", "ext2fs_flush2", "ext2fs_mark_super_dirty") or
+                 any(nm in writes_ for nm in T.call_names(c_.ev["x"]))]
+    rep.floor("C12.p modifying calls in tune2fs main", len(mod_calls), 8)
+    k_p = {}
+    for c_ in mod_calls:
+        nm = T.call_names(c_.ev["x"])[0]
+        k_p[nm] = k_p.get(nm, -1) + 1
+        rep.ob("C12.p", site(tmain, "%s#%d comes after the undo manager was offered" % (nm, k_p[nm])), tmain.dominated_by(c_, ut),
+               "every path to %s (line %d) passes the test of undo_file / io_ptr_orig that leads to tune2fs_setup_tdb()" % (nm, c_.line))
+
     # ------------------------------------------------------------------ C12.n a run that wrote nothing leaves a well-formed undo file
     # The header's block size is filled in by undo_setup_tdb(), which runs before the first block is saved.  A run
     # that changes nothing never gets there; undo_close() therefore runs it before it writes the header, or e2undo and
